@@ -77,7 +77,10 @@ class Ctx(object):
     def choice(self, name, n):
         """symbolic integer in range(n), decided by forking (returns a concrete python int)"""
         if not self.sym:
-            return int(self._get(name))
+            v = int(self._get(name))
+            if not 0 <= v < n:
+                raise Reject("choice %s=%d outside range(%d)" % (name, v, n))
+            return v
         v = self.eng.fresh_int(name)
         self.assume((v >= 0) & (v < n))
         return int(v)
